@@ -21,7 +21,7 @@ RULE = (
     "'did not return' (counted, not judged); non-trivial = the operation returned and the input has >=2 plates or >=2 samples"
 )
 ASSUMPTIONS = ["per-plate hold-out count: ceil of the float product, of the exact rational product, and of the decimal reading of the fraction are all accepted"]
-REQUIRED = {"generator_returns": {"quick": 600, "thorough": 9000}, "smoother_returns": {"quick": 1000, "thorough": 15000}, "holdout_returns": {"quick": 500, "thorough": 7000}, "input_unchanged_checks": {"quick": 3500, "thorough": 50000}, "ops_after_in_place_reveal": {"quick": 150, "thorough": 2500}}
+REQUIRED = {"cli_prepare_runs": {"quick": 12, "thorough": 150}, "cli_prepare_fraction_0": {"quick": 6, "thorough": 14}, "generator_returns": {"quick": 600, "thorough": 9000}, "smoother_returns": {"quick": 1000, "thorough": 15000}, "holdout_returns": {"quick": 500, "thorough": 7000}, "input_unchanged_checks": {"quick": 3500, "thorough": 50000}, "ops_after_in_place_reveal": {"quick": 150, "thorough": 2500}}
 N_OPS = {"quick": 4000, "thorough": 56000}
 
 
@@ -90,6 +90,70 @@ def check_holdout(rec, name, fraction, inp, train, hold, w):
         rec.check(hold.size in accepted_counts(inp.size, fraction), "C11/holdout/wrong-count", lambda: "random hold-out took %d of %d rows, fraction %r" % (hold.size, inp.size, fraction), w)
 
 
+def cli_prepare(rec, tier, rng):
+    """The preparation step as the pipeline runs it: prepare_retrospective_simulation on a file, with the fraction (0
+    and 1 included), generator and smoother given on the command line; the two output files are judged against the
+    input file."""
+    import os
+    from batchie.data import Screen
+    from batchie import data as D
+    from batchie.cli import prepare_retrospective_simulation as cli
+
+    n = {"quick": 3, "thorough": 16}[tier]
+    fractions = ["0", "0.0", "1", "1.0", "0.1", "0.3", "1e-10", "0.5"]
+    with kit.scratch_dir("vf-c11-") as tmp:
+        for ci in range(n):
+            kw, flavour = RC.retro_screen_kwargs(rng)
+            kw = dict(kw, observation_mask=np.ones(len(kw["plate_names"]), dtype=bool))
+            try:
+                full = Screen(**kw)
+            except Exception as e:
+                rec.did_not_return("cli-construct", e)
+                continue
+            f_in, f_tr, f_te = (os.path.join(tmp, x) for x in ("in.h5", "train.h5", "test.h5"))
+            full.save_h5(f_in)
+            frac = fractions[int(rng.integers(len(fractions)))] if ci else "0"
+            argv = ["--data", f_in, "--training-output", f_tr, "--test-output", f_te, "--holdout-fraction", frac, "--seed", int(rng.integers(0, 1000))]
+            gen_name = str(rng.choice(["none", "PlatePermutationPlateGenerator", "SampleSegregatingPermutationPlateGenerator"]))
+            if gen_name == "SampleSegregatingPermutationPlateGenerator":
+                argv += ["--plate-generator", gen_name, "--plate-generator-param", "max_plate_size=%d" % int(rng.integers(2, 8))]
+            elif gen_name != "none":
+                argv += ["--plate-generator", gen_name]
+            w = {"via": "prepare_retrospective_simulation", "fraction": frac, "generator": gen_name, "rows": int(full.size)}
+            for f_ in (f_tr, f_te):
+                if os.path.exists(f_):
+                    os.remove(f_)
+            try:
+                kit.run_cli(cli.main, argv)
+                train, test = Screen.load_h5(f_tr), Screen.load_h5(f_te)
+            except Exception as e:
+                rec.did_not_return("cli-prepare", e)
+                continue
+            rec.count("cli_prepare_runs")
+            rec.count("cli_prepare_fraction_" + frac)
+            rec.case(("cli", kit.array_hash(full.observations), frac, gen_name), nontrivial=True)
+            filtered = D.filter_dataset_to_treatments_that_appear_in_at_least_one_combo(full)
+            rin = rows(filtered)
+            both = rows(train) + rows(test)
+            extra = both - rin
+            rec.check(not extra, "C11/cli/invented-or-duplicated-row", lambda: "training + test files hold %d rows that are not rows of the (combination-filtered) input" % sum(extra.values()), w)
+            if gen_name == "none":
+                rec.check(both == rin, "C11/cli/lost-row", lambda: "without a smoother training + test must be the filtered input: %d rows missing" % sum((rin - both).values()), w)
+            f = float(frac)
+            tr_pl = {}
+            for pnm, m in zip(train.plate_names, train.observation_mask):
+                tr_pl.setdefault(str(pnm), [0, bool(m)])[0] += 1
+            te_pl = Counter(str(x) for x in test.plate_names)
+            rec.check(bool(np.all(test.observation_mask)) or test.size == 0, "C11/holdout/holdout-not-fully-observed", "test file not fully observed", w)
+            for pnm in set(tr_pl) | set(te_pl):
+                n_tr, observed = tr_pl.get(pnm, [0, False])
+                k = te_pl.get(pnm, 0)
+                if observed:
+                    rec.check(k == 0, "C11/holdout/row-from-observed-plate", lambda: "the test file holds %d rows of observed plate %r" % (k, pnm), w)
+                else:
+                    rec.check(k in accepted_counts(n_tr + k, f), "C11/holdout/wrong-per-plate-count", lambda: "--holdout-fraction %s: %d of the %d rows of unobserved plate %r are in the test file" % (frac, k, n_tr + k, pnm), w)
+
+
 def run_shard(rec, tier, seed, shard, nshards):
     from batchie.data import Screen
     from batchie import retrospective as R
@@ -137,3 +201,4 @@ def run_shard(rec, tier, seed, shard, nshards):
             rec.sample({"op": name, "params": params, "rng": gstate, "input_rows": int(screen.size), "input_plates": len(w["plates"]), "output_rows": int(res[0].size + res[1].size) if kind == "holdout" else int(res.size)})
         if before != after:
             screen = None
+    cli_prepare(rec, tier, rng)
